@@ -18,7 +18,9 @@ from .. import harness, par
 
 PID = "C27"
 SEP = "§"          # between statements of a call program
-UNDEF_RE = re.compile(r"^'\w+' is undefined$")
+# what DebugUndefined prints is a diagnostic whose wording no statement fixes: anything that says "undefined" is the undefined value
+# (value tokens are short upper-case words and never contain it)
+UNDEF_RE = re.compile(r"undefined", re.I)
 UNDEFINED_KINDS = ("Undefined", "DebugUndefined", "StrictUndefined")
 
 
@@ -33,7 +35,7 @@ def tok_text(t):
 
 def seen_token(text):
     """Project what the engine printed for one value onto a token text."""
-    if text == "" or UNDEF_RE.match(text):
+    if text == "" or UNDEF_RE.search(text):
         return "U"
     return text
 
@@ -536,7 +538,7 @@ def run(tier: str) -> int:
         "`{% with x: 1, y: x %}`: whether y reads the outer or the new x is not fixed by the docs; both admissible",
         "a macro defined in an included template: either visible to the including template or an undefined macro (not documented)",
         "a macro calling another macro, parameters named args/kwargs, duplicate parameter names and redefinition of a macro are outside the family",
-        "undefined is observed as: empty output (Undefined), \"'name' is undefined\" (DebugUndefined), UndefinedError on output (StrictUndefined)",
+        "undefined is observed as: empty output (Undefined), a diagnostic text mentioning 'undefined' (DebugUndefined), UndefinedError on output (StrictUndefined)",
     ]
     return ck.finish()
 
